@@ -143,7 +143,8 @@ def _install_write_contract(W, sock, log):
 @oset("socket._drain_message_queue.not-connected", ["C01", "C02", "C16"], [F_DRAIN])
 def drain_not_connected(h):
     if not h.symbolic:
-        return
+        from replay import native_readings as NR
+        return NR.socket_drain_not_connected(h)
     W = SockWorld(h)
     e0 = W.entry("e0")
     sock = W.make_socket(queue=[e0], connected=False)
@@ -356,7 +357,8 @@ def close_contract(h):
 @oset("socket.open_socket", ["C15", "C07", "C09"], [F_OPEN, F_SCHED])
 def open_contract(h):
     if not h.symbolic:
-        return
+        from replay import native_readings as NR
+        return NR.socket_open_socket(h)
     W = SockWorld(h)
     sock = W.make_socket(connected=False)
     was_open = h.branch(sock.attrs["is_open"])
@@ -375,7 +377,11 @@ def open_contract(h):
 @oset("socket._delay", ["C07"], [F_DELAY])
 def delay_contract(h):
     if not h.symbolic:
-        return
+        from replay import native_readings as NR
+        return NR.socket_delay(h)
+    if getattr(h, "concrete", False):
+        from pyvc.harness import SkipConformance
+        raise SkipConformance("the model clock is a symbolic value after a sleep")
     W = SockWorld(h)
     d = h.real("delay", 0, 100)
     ran = []
@@ -635,7 +641,8 @@ def read_failures(h):
 @oset("socket.send", ["C01", "C03"], [F_SEND])
 def send_contract(h):
     if not h.symbolic:
-        return
+        from replay import native_readings as NR
+        return NR.socket_send(h)
     W = SockWorld(h)
     sock = W.make_socket()
     msg = W.message("m")
